@@ -8,6 +8,7 @@ import (
 	"io/fs"
 	"os"
 	"path/filepath"
+	"regexp"
 	"runtime"
 	"sort"
 	"strings"
@@ -73,6 +74,7 @@ func g12HasPrefix(skel []string, p string) bool {
 }
 
 func genG12(repo string, w *Out) error {
+	// skel: the skeleton with the source's own identifiers (used to recognise shapes)
 	skel := func(file, fn string) ([]string, *File, error) {
 		f, err := Parse(repo, file)
 		if err != nil {
@@ -84,13 +86,30 @@ func genG12(repo string, w *Out) error {
 		}
 		return g12Skeleton(f, fd.Body), f, nil
 	}
+	// skelNorm: the skeleton with locals renamed to $0, $1, ... (what the obligations compare)
+	skelNorm := func(file, fn string) ([]string, error) {
+		f, err := Parse(repo, file) // fresh parse: renaming mutates the AST
+		if err != nil {
+			return nil, err
+		}
+		fd, err := f.Func(fn)
+		if err != nil {
+			return nil, err
+		}
+		return g12SkeletonFn(f, fd, nil), nil
+	}
+	// emit writes the normalised skeleton and returns the raw one
 	emit := func(name, file, fn string) ([]string, error) {
 		s, _, err := skel(file, fn)
 		if err != nil {
 			return nil, err
 		}
+		sn, err := skelNorm(file, fn)
+		if err != nil {
+			return nil, err
+		}
 		w.Linef("(* %s : %s *)", file, fn)
-		w.DefStrList(name, s)
+		w.DefStrList(name, sn)
 		return s, nil
 	}
 
@@ -232,10 +251,27 @@ func genG12(repo string, w *Out) error {
 
 	// ------------------------------------------------------------ internal/martian/proxy_conn.go
 	pc := "internal/martian/proxy_conn.go"
+	// of these functions the model transcribes the control flow around reading, modifying, contacting the
+	// upstream, writing, tracing and returning; tokens about anything else (request fix-ups, upgrade header
+	// juggling, TLS session bookkeeping) belong to other properties and are not part of the obligation
+	relevant := []string{"readRequest", "trace", "rite", "modify", "roundTrip", ".handle", "Connect(", "closing()", "return", "!= nil", "== nil",
+		"tunnel", "drainBuffer", "bicopy", "shouldMITM", "errorResponse", "StatusCode", ".Peek(", "Handshake", ".Request = ", "ReadWriteCloser", "defer "}
 	for _, fn := range []string{"handle", "handleConnectRequest", "handleMITM", "tunnel", "handleUpgradeResponse", "writeErrorResponse"} {
-		if _, err := emit("skel_"+fn, pc, "proxyConn."+fn); err != nil {
+		sn, err := skelNorm(pc, "proxyConn."+fn)
+		if err != nil {
 			return err
 		}
+		var rel []string
+		for _, t := range sn {
+			for _, k := range relevant {
+				if strings.Contains(t, k) {
+					rel = append(rel, t)
+					break
+				}
+			}
+		}
+		w.Linef("(* %s : proxyConn.%s (tokens about reading, modifying, upstream contact, writing, tracing, returning) *)", pc, fn)
+		w.DefStrList("skel_"+fn, g12Renumber(rel))
 	}
 	wes, _, _ := skel(pc, "proxyConn.writeErrorResponse")
 	// the *connectError response is bound to the request being served either in writeErrorResponse itself
@@ -277,9 +313,13 @@ func genG12(repo string, w *Out) error {
 	}
 	// of writeResponse only the connection-close decision, the completion report and the returns are
 	// transcribed in G12.Exchange (how the body is framed and flushed belongs to C02's model)
+	wrNorm, err := skelNorm(pc, wrName)
+	if err != nil {
+		return err
+	}
 	var wrRel []string
-	for _, t := range wr {
-		for _, k := range []string{"res.Close", "req.Close", "p.closing()", "skipTraceWroteResponse", "traceWroteResponse", "return", "p.brw.Flush()", "err != nil", "http.MethodConnect", "StatusSwitchingProtocols"} {
+	for _, t := range wrNorm {
+		for _, k := range []string{".Close", ".closing()", "skipTraceWroteResponse", "traceWroteResponse", "return", ".brw.Flush()", "!= nil", "http.MethodConnect", "StatusSwitchingProtocols"} {
 			if strings.Contains(t, k) {
 				wrRel = append(wrRel, t)
 				break
@@ -287,7 +327,7 @@ func genG12(repo string, w *Out) error {
 		}
 	}
 	w.Linef("(* %s : %s (tokens about closing, tracing, returning) *)", pc, wrName)
-	w.DefStrList("skel_writeResponse", wrRel)
+	w.DefStrList("skel_writeResponse", g12Renumber(wrRel))
 	w.DefBool("trace_skip_only_when_deferred", deferred)
 	// which functions of proxy_conn.go write a response with the trace deferred
 	var defCallers []string
@@ -466,4 +506,24 @@ func g12ErrorStatusLiterals(repo string) ([]int64, error) {
 	})
 	sort.Slice(out, func(i, j int) bool { return out[i] < out[j] })
 	return out, err
+}
+
+// g12Renumber renames the placeholders $n of a (filtered) token list in order of first occurrence, so
+// that a local variable added in a part of the function that is not part of the obligation does not
+// shift the numbers.
+func g12Renumber(toks []string) []string {
+	re := regexp.MustCompile(`\$\d+`)
+	m := map[string]string{}
+	out := make([]string, len(toks))
+	for i, t := range toks {
+		out[i] = re.ReplaceAllStringFunc(t, func(x string) string {
+			if v, ok := m[x]; ok {
+				return v
+			}
+			v := fmt.Sprintf("$%d", len(m))
+			m[x] = v
+			return v
+		})
+	}
+	return out
 }
